@@ -151,6 +151,12 @@ func workerLoop(p *Prop, tier, markPath string, deadline time.Time) {
 		for k := range c.oc {
 			c.res.Outcomes = append(c.res.Outcomes, k)
 		}
+		if len(c.res.Samples) == 0 {
+			for _, k := range c.auto {
+				b, _ := json.Marshal(map[string]string{"nontrivial_case": k})
+				c.res.Samples = append(c.res.Samples, b)
+			}
+		}
 		b, _ := json.Marshal(&c.res)
 		out.Write(b)
 		out.WriteByte('\n')
